@@ -44,13 +44,19 @@ Definition parse_depth_default_inf (s : string) : option N :=
 Definition known_method (m : string) : bool :=
   existsb (String.eqb m) ["OPTIONS"; "GET"; "HEAD"; "PUT"; "DELETE"; "PROPFIND"; "MKCOL"; "COPY"; "MOVE"]%string.
 
+(** Methods the file server does not carry out: 405 — except PROPPATCH, a WebDAV method
+    it understands but refuses, since properties cannot be changed on this server: 403
+    (RFC 4918 9.2), or 400 for a body that is not a propertyupdate document. *)
+Definition unsupported_code (r : request) : N :=
+  if String.eqb (meth r) "PROPPATCH" then match pf r with PfBad => 400 | _ => 403 end else 405.
+
 (** The request path (and Destination path) name the resource [root ++ segments]. *)
 Definition abs_path (root : path) (name : string) : option path :=
   match local_segs name with Ok s => Some (root ++ s) | _ => None end.
 
 Definition parse_req (root : path) (r : request) : areq :=
   let m := meth r in
-  if negb (known_method m) then ARefused 405
+  if negb (known_method m) then ARefused (unsupported_code r)
   else if String.eqb m "MKCOL" && negb (String.eqb (h_ctype r) "") then ARefused 415
   else
     match abs_path root (rpath r) with
